@@ -429,6 +429,7 @@ class ExprMixin:
             z3.RecAddDefinition(F, [x] + arrs + its, z3.And(x > 0, z3.Or(eq, F(x - 1, *(arrs + its)))))
             self.recfuncs[key] = F
         F = self.recfuncs[key]
+        self.rec_used = True
         return F(n, *(list(lst.t[1:]) + list(item.t)))
 
     def counter_contains(self, c, item):
@@ -752,6 +753,15 @@ class ExprMixin:
         if isinstance(base, str):
             base = lift(base)
             k = KStr
+        if k == KName:
+            # a name atom sliced by a position: an uninterpreted function of (name, from, to); the same Python
+            # expression in code and in a spec denotes the same term (used for 'app[app.index("#") + 1:]')
+            if step is not None:
+                raise CheckerError('name slice with step')
+            f = self.recfuncs.setdefault('$name_slice', z3.Function('name_slice', I, I, I, I))
+            a = z3.IntVal(0) if lo is None else lift(lo, KInt).z
+            b = z3.IntVal(-1) if hi is None else lift(hi, KInt).z
+            return SVal(KName, [f(base.z, a, b)])
         if k == KStr:
             if step is not None:
                 raise CheckerError('string slice with step')
